@@ -94,6 +94,17 @@ class Leaves:
                         return r | {('opaque', 'unwrap_or_else closure')}
                     if m in ('is_ok', 'is_some', 'is_err', 'is_none'):
                         return {('opaque', m)}
+                    if m in ('map_or_else', 'map_or') and len(args) >= 3:
+                        # x.map_or_else(on_none_or_err, f): the fallback closure's value, or f applied to the payload
+                        cf = self._closure_path(args[2])
+                        if m == 'map_or_else':
+                            cd = self._closure_path(args[1])
+                            r = self._ret_of(cd, 'value', depth, stack) if cd else {('opaque', 'map_or_else fallback')}
+                        else:
+                            r = self.value(fn, args[1], depth + 1, stack)
+                        if cf:
+                            return r | self._rebind(self._ret_of(cf, 'value', depth, stack), args[0])
+                        return r | {('opaque', m + ' closure')}
             b = self.body_of(path)
             if b is not None:
                 return self._ret_of({path}, 'value', depth, stack, subst=self._subst(fn, n, b), args=n[2])
